@@ -30,6 +30,7 @@ Print Assumptions C10_one_write.
 Theorem C10_undefined : forall p w,
   write_to KUndefined p w = Some {| w_n := 0; w_err := Some ECannotWrite; w_calls := [] |}.
 Proof. reflexivity. Qed.
+Print Assumptions C10_undefined.
 
 (* WriteTo does not panic on any packet a program can hold (CONNECT:
    representation invariant Inv, see C19) *)
